@@ -212,6 +212,34 @@ def extract_cpp_print_byte():
     return [(int(n), unescape(t)) for n, t in cases], int(rng.group(1)), int(rng.group(2))
 
 
+def extract_texts():
+    """regular expressions and name lists the model mirrors: the text prophyc refuses to paste, the include depth limit,
+    the names reserved for the generated C++"""
+    import ast as _ast
+    out = {}
+    msrc = open(os.path.join(REPO, 'prophyc/model.py')).read()
+    m = re.search(r'^UNWRITABLE_TEXT = (r?"[^"\n]*")', msrc, re.M)
+    if not m:
+        raise T1Error('model.UNWRITABLE_TEXT not found')
+    out['unwritable'] = _ast.literal_eval(m.group(1))
+    fsrc = open(os.path.join(REPO, 'prophyc/file_processor.py')).read()
+    m = re.search(r'^INCLUDE_DEPTH_LIMIT = (\d+)', fsrc, re.M)
+    if not m:
+        raise T1Error('file_processor.INCLUDE_DEPTH_LIMIT not found')
+    out['depth'] = int(m.group(1))
+    bsrc = open(os.path.join(REPO, 'prophyc/generators/base.py')).read()
+    m = re.search(r'^CPP_RUNTIME_NAMES = frozenset\(\n(.*?)\n\)', bsrc, re.M | re.S)
+    if not m:
+        raise T1Error('generators.base.CPP_RUNTIME_NAMES not found')
+    out['runtime_names'] = sorted(eval('frozenset(' + m.group(1) + ')', {'frozenset': frozenset}))   # noqa: S307 (a literal expression of the source)
+    csrc = open(os.path.join(REPO, 'prophyc/generators/cpp.py')).read()
+    m = re.search(r'check_cpp_names\(nodes, generated=(r"[^"]*")\)', csrc)
+    if not m:
+        raise T1Error('CppGenerator.check_nodes: pattern of generated names not found')
+    out['generated'] = _ast.literal_eval(m.group(1))
+    return out
+
+
 def write_if_changed(name, text):
     os.makedirs(OUT, exist_ok=True)
     path = os.path.join(OUT, name)
@@ -347,7 +375,24 @@ end Prophy.Generated
 ''' % (', '.join('(%d, %s)' % (n, lean_str(t)) for n, t in escapes), lo, hi)
     if write_if_changed('CppPrinter.lean', text):
         changed.append('CppPrinter.lean')
-    return {'changed': changed, 'tables': ['PyScalars', 'ProphycSizes', 'Precedence', 'CppPrinter']}
+    texts = extract_texts()
+    text = '''/- GENERATED by harness/t1_extract.py from prophyc/model.py, prophyc/file_processor.py, prophyc/generators/base.py and cpp.py.  Do not edit. -/
+namespace Prophy.Generated
+
+/-- model.UNWRITABLE_TEXT: expression text matching it is refused instead of being pasted into the generated code -/
+def unwritableRegex : String := %s
+/-- file_processor.INCLUDE_DEPTH_LIMIT -/
+def includeDepthLimit : Nat := %d
+/-- generators.base.CPP_RUNTIME_NAMES (sorted) -/
+def cppRuntimeNames : List String := [%s]
+/-- the names the raw C++ generator invents inside the classes it writes (CppGenerator.check_nodes) -/
+def cppRawGeneratedNames : String := %s
+
+end Prophy.Generated
+''' % (lean_str(texts['unwritable']), texts['depth'], ', '.join(lean_str(n) for n in texts['runtime_names']), lean_str(texts['generated']))
+    if write_if_changed('Texts.lean', text):
+        changed.append('Texts.lean')
+    return {'changed': changed, 'tables': ['PyScalars', 'ProphycSizes', 'Precedence', 'CppPrinter', 'Ranges', 'Texts']}
 
 
 if __name__ == '__main__':
